@@ -2,7 +2,9 @@ package main
 
 import (
 	"fmt"
+	"go/constant"
 	"go/token"
+	"go/types"
 
 	"golang.org/x/tools/go/ssa"
 )
@@ -169,5 +171,552 @@ func init() {
 			}
 		}
 		c.Expect(2, n, "node decoders inside *Trie methods")
+	})
+}
+
+func init() {
+	extendProp("C16", "When a diff layer is flattened, the frozen buffer reference handed to the new disk layer becomes nil only after the buffer being dropped was waited on (waitFlush, error tested) or was already nil: a frozen buffer whose flush may still be in flight stays visible to reads.", nil, func(c *Ctx) {
+		c.Rule("ORDER/C16.frozen")
+		pd := "triedb/pathdb"
+		f := c.Fn(pd, "(*diskLayer).commit")
+		if f == nil {
+			return
+		}
+		c.Funcs[f] = true
+		isFrozenAddr := func(v ssa.Value) bool {
+			fa, ok := v.(*ssa.FieldAddr)
+			return ok && fieldAddrName(fa) == pd+".diskLayer.frozen"
+		}
+		var targets []Site
+		nCalls := 0
+		for _, s := range c.Calls(f, pd+".newDiskLayer") {
+			nCalls++
+			args := s.Instr.(*ssa.Call).Call.Args
+			arg := args[len(args)-1]
+			switch x := arg.(type) {
+			case *ssa.Const:
+				targets = append(targets, s)
+			case *ssa.Phi:
+				for i, e := range x.Edges {
+					if Nil()(e) {
+						pb := x.Block().Preds[i]
+						targets = append(targets, Site{f, pb.Instrs[len(pb.Instrs)-1]})
+					}
+				}
+			case *ssa.UnOp:
+				if !isFrozenAddr(x.X) {
+					c.Undecided("source/"+fnName(f), s.Pos(), "the frozen buffer given to the new disk layer is neither the stale layer's field nor a local merged from audited assignments")
+				}
+			default:
+				c.Undecided("source/"+fnName(f), s.Pos(), "the frozen buffer given to the new disk layer could not be traced")
+			}
+		}
+		c.Expect(1, nCalls, "newDiskLayer in commit")
+		eachInstr(f, func(in ssa.Instruction) {
+			if st, ok := in.(*ssa.Store); ok && isFrozenAddr(st.Addr) && Nil()(st.Val) {
+				targets = append(targets, Site{f, in})
+			}
+		})
+		c.Expect(1, len(targets), "points at which the frozen reference becomes nil")
+		waits := c.Calls(f, "(*"+pd+".buffer).waitFlush")
+		c.Dom("nil-only-after-wait", f, targets, "frozen reference dropped",
+			GErrChecked("frozen.waitFlush()", waits),
+			GCond("dl.frozen == nil", f, Cmp(func(v ssa.Value) bool {
+				u, ok := v.(*ssa.UnOp)
+				return ok && isFrozenAddr(u.X)
+			}, token.EQL, Nil())))
+	})
+}
+
+func init() {
+	extendProp("C15", "A stashed pre-transaction original (balance/nonce/code) is dropped on revert only when the journal holds no further entry of that kind for the account: every clearKind call is dominated by the per-kind counter reaching zero, the counter test is `c[kind] == 0` after the decrement, and the stash fields are written only by the stash helpers, clearKind and copy.", nil, func(c *Ctx) {
+		c.Rule("DOM/C15.stash")
+		cs := "core/state"
+		n := 0
+		for _, f := range c.AllFuncs(cs) {
+			cl := c.Calls(f, "(*"+cs+".journalMutationState).clearKind")
+			if len(cl) == 0 {
+				continue
+			}
+			n += len(cl)
+			c.Funcs[f] = true
+			rm := c.Calls(f, "(*"+cs+".journalMutationCounts).remove")
+			edges := map[Edge]bool{}
+			for _, r := range rm {
+				for e := range ResultTrueEdges(r.Instr.(*ssa.Call), 0) {
+					edges[e] = true
+				}
+			}
+			g := Guard{Desc: "counts.remove(kind) reported zero", Steps: []Step{{Edges: edges}}, Sites: len(edges)}
+			c.Dom("cleared-only-at-zero", f, cl, "stashed original dropped", g)
+			for _, s := range cl {
+				call := s.Instr.(*ssa.Call)
+				same := false
+				for _, r := range rm {
+					if sameValue(callArgs(&call.Call)[0], callArgs(&r.Instr.(*ssa.Call).Call)[0]) {
+						same = true
+					}
+				}
+				c.Check(same, "same-kind/"+fnName(f), s.Pos(), "the kind cleared is the kind whose counter was decremented", "clearKind is called for a different kind than the one whose counter reached zero")
+			}
+		}
+		c.Expect(1, n, "clearKind call sites")
+		if f := c.Fn(cs, "(*journalMutationCounts).remove"); f != nil {
+			c.Funcs[f] = true
+			ok := false
+			for _, r := range c.Returns(f) {
+				if b, isB := retVal(r.Instr.(*ssa.Return), 0).(*ssa.BinOp); isB && b.Op == token.EQL && constIs(b.Y, 0) {
+					if u, isU := b.X.(*ssa.UnOp); isU {
+						if ia, isIA := u.X.(*ssa.IndexAddr); isIA && Param("kind")(ia.Index) {
+							ok = true
+						}
+					}
+				}
+			}
+			c.Check(ok, "zero-test/"+fnName(f), f.Pos(), "reports exactly `c[kind] == 0` after the decrement", "journalMutationCounts.remove no longer reports c[kind] == 0: stashed originals are dropped while entries of the kind remain (or kept after the last is reverted)")
+		}
+	})
+}
+
+// loopBackEdges: last instructions of the blocks that jump back to header from inside its loop.
+func loopBackEdges(f *ssa.Function, header *ssa.BasicBlock) []Site {
+	var out []Site
+	for _, p := range header.Preds {
+		if header.Dominates(p) {
+			out = append(out, Site{f, p.Instrs[len(p.Instrs)-1]})
+		}
+	}
+	return out
+}
+
+func pendingAggregation(c *Ctx, rule string) {
+		c.Rule(rule)
+		cst := "core/state"
+		fin := c.Fn(cst, "(*stateObject).finalise")
+		if fin == nil {
+			return
+		}
+		hs := rangeLoopHeadersMap(fin, func(v ssa.Value) bool { return matchField(fieldOfLoad(v), cst+".stateObject.dirtyStorage") })
+		c.Expect(1, len(hs), "range loop over dirtyStorage in finalise")
+		for _, h := range hs {
+			var next *ssa.Next
+			for _, in := range h.Instrs {
+				if nx, ok := in.(*ssa.Next); ok {
+					next = nx
+				}
+			}
+			var writes []Site
+			for _, w := range c.MapWrites(fin, cst+".stateObject.pendingStorage", false) {
+				mu := w.Instr.(*ssa.MapUpdate)
+				k, okK := mu.Key.(*ssa.Extract)
+				v, okV := mu.Value.(*ssa.Extract)
+				if okK && okV && k.Tuple == ssa.Value(next) && v.Tuple == ssa.Value(next) && k.Index == 1 && v.Index == 2 {
+					writes = append(writes, w)
+				}
+			}
+			c.Dom("every-dirty-slot", fin, loopBackEdges(fin, h), "end of one iteration", GSites("pendingStorage[key] = value", writes))
+		}
+		nd := 0
+		for _, f := range c.AllFuncs(cst) {
+			for _, d := range c.MapWrites(f, cst+".stateObject.pendingStorage", true) {
+				nd++
+				c.Bad("no-single-delete/"+fnName(f), d.Pos(), fnName(f)+" deletes a single entry from pendingStorage: a slot written earlier in the block and already hashed into the trie would then be read back from the stale origin")
+			}
+		}
+		if nd == 0 {
+			c.OK("no-single-delete", fin.Pos(), "no function of core/state deletes from pendingStorage")
+		}
+	}
+
+const pendingDecided = "At the end of a transaction every dirty slot is aggregated into the pending set: each iteration of finalise's loop over dirtyStorage stores pendingStorage[key] = value (the loop's own key and value), and no pending entry is deleted individually anywhere (the set is only replaced wholesale after the trie update)."
+
+func init() {
+	extendProp("C13", pendingDecided, nil, func(c *Ctx) { pendingAggregation(c, "LOOPALL/C13.pending") })
+	extendProp("C14", pendingDecided+" (Without it a slot already hashed into the trie is read back from the stale origin and is missing from the commit's storage set.)", []string{"core/state"}, func(c *Ctx) { pendingAggregation(c, "LOOPALL/C14.pending") })
+}
+
+func init() {
+	extendProp("C11", "Every account reaches the account trie only after its stored storage root was compared with the root recomputed from its flat slots (so a stale root — including a non-empty root over no slots — is rewritten).", nil, func(c *Ctx) {
+		c.Rule("DOM/C11.staleroot")
+		f := c.Fn("triedb", "generatePartition")
+		if f == nil {
+			return
+		}
+		enc := c.CallsWhere(f, "rlp.EncodeToBytes", func(cc *ssaCall) bool {
+			n := derefNamed(ifaceSrc(cc.Args[0]).Type())
+			return n != nil && n.Obj().Name() == "StateAccount"
+		})
+		c.Expect(1, len(enc), "encoding of the (corrected) account in generatePartition")
+		isRoot := func(v ssa.Value) bool {
+			u, ok := v.(*ssa.UnOp)
+			if !ok {
+				return false
+			}
+			fa, ok := u.X.(*ssa.FieldAddr)
+			return ok && fieldAddrName(fa) == "core/types.StateAccount.Root"
+		}
+		hash := CallRes("(*trie.StackTrie).Hash")
+		edges := map[Edge]bool{}
+		for _, op := range []token.Token{token.EQL, token.NEQ} {
+			for e := range EdgesWhere(f, Cmp(hash, op, isRoot)) {
+				edges[e] = true
+			}
+			for e := range EdgesWhere(f, Cmp(isRoot, op, hash)) {
+				edges[e] = true
+			}
+		}
+		g := Guard{Desc: "storageTrie.Hash() compared with account.Root", Steps: []Step{{Edges: edges}}, Sites: len(edges)}
+		c.Dom("compared-before-use", f, enc, "account encoded for the account trie", g)
+	})
+}
+
+func init() {
+	extendProp("C10", "In hexToCompact the terminator flag of the first byte is derived from hasTerm(hex): a constant flag byte is stored only under the matching outcome of that test, and a computed `t<<5` takes t = 1 only from the branch where hasTerm held.", nil, func(c *Ctx) {
+		c.Rule("DOM/C10.termflag")
+		f := c.Fn("trie", "hexToCompact")
+		if f == nil {
+			return
+		}
+		c.Funcs[f] = true
+		ht := c.Calls(f, "trie.hasTerm")
+		tEdges, fEdges := map[Edge]bool{}, map[Edge]bool{}
+		for _, s := range ht {
+			call := s.Instr.(*ssa.Call)
+			for e := range ResultTrueEdges(call, 0) {
+				tEdges[e] = true
+			}
+			for e := range EdgesWhere(f, False(Is(call))) {
+				fEdges[e] = true
+			}
+		}
+		domBy := func(es map[Edge]bool, b *ssa.BasicBlock) bool {
+			for e := range es {
+				if edgeDominates(e, b) {
+					return true
+				}
+			}
+			return false
+		}
+		n := 0
+		eachInstr(f, func(in ssa.Instruction) {
+			st, ok := in.(*ssa.Store)
+			if !ok {
+				return
+			}
+			ia, ok := st.Addr.(*ssa.IndexAddr)
+			if !ok || !constIs(ia.Index, 0) {
+				return
+			}
+			name := "flag-store/" + fnName(f)
+			switch v := st.Val.(type) {
+			case *ssa.Const:
+				n++
+				bit := false
+				if k, okc := constInt64(v); okc {
+					bit = k&0x20 != 0
+				}
+				if bit {
+					c.Check(domBy(tEdges, in.Block()), name, st.Pos(), "constant flag byte with the terminator bit is stored only where hasTerm(hex) held", "a flag byte with the terminator bit set is stored without hasTerm(hex) having been tested true: an unterminated path of that shape is encoded as a leaf")
+				} else {
+					c.Check(domBy(fEdges, in.Block()), name, st.Pos(), "constant flag byte without the terminator bit is stored only where hasTerm(hex) failed", "a flag byte without the terminator bit is stored without hasTerm(hex) having been tested false: a terminated path of that shape loses its leaf flag")
+				}
+			case *ssa.BinOp:
+				if v.Op != token.SHL || !constIs(v.Y, 5) {
+					// `buf[0] |= …` updates: must not introduce the terminator bit by a constant
+					if v.Op == token.OR {
+						if k, okc := constInt64(v.Y); okc && k&0x20 != 0 {
+							n++
+							c.Check(domBy(tEdges, in.Block()), name, st.Pos(), "terminator bit or-ed in only where hasTerm(hex) held", "the terminator bit is or-ed into the flag byte without hasTerm(hex) having been tested true")
+						}
+					}
+					return
+				}
+				n++
+				phi, isPhi := stripConv(v.X).(*ssa.Phi)
+				good := isPhi
+				if isPhi {
+					for i, e := range phi.Edges {
+						switch {
+						case constIs(e, 1):
+							pb := phi.Block().Preds[i]
+							good = good && (domBy(tEdges, pb) || tEdgeIs(tEdges, pb, phi.Block()))
+						case constIs(e, 0):
+						default:
+							good = false
+						}
+					}
+				}
+				c.Check(good, name, st.Pos(), "the shifted terminator value is 1 only on the hasTerm(hex) branch", "the value shifted into the terminator bit is not {0, 1-iff-hasTerm(hex)}")
+			}
+		})
+		c.Expect(1, n, "flag byte stores in hexToCompact")
+	})
+}
+
+func tEdgeIs(es map[Edge]bool, from, to *ssa.BasicBlock) bool {
+	for e := range es {
+		if e.From == from && e.From.Succs[e.Succ] == to {
+			return true
+		}
+	}
+	return false
+}
+
+func constInt64(v ssa.Value) (int64, bool) {
+	k, ok := v.(*ssa.Const)
+	if !ok || k.Value == nil {
+		return 0, false
+	}
+	return k.Int64(), true
+}
+
+func init() {
+	extendProp("C23", "The in-memory batch distinguishes its operation kinds (put / delete / range delete) by record fields that the constructors fill with constants, never by caller-supplied data: following Write's and Replay's dispatch for the record each of Put, Delete and DeleteRange builds, no test of a caller-filled field is reached.", nil, func(c *Ctx) {
+		c.Rule("TABLE/C23.discriminator")
+		mp := "ethdb/memorydb"
+		kv := c.Type(mp, "keyvalue")
+		if kv == nil {
+			return
+		}
+		st := kv.Underlying().(*types.Struct)
+		isKV := func(t types.Type) bool { n := derefNamed(t); return n != nil && n.Obj() == kv.Obj() }
+		// the record each constructor builds: field -> constant (nil entry = filled from an argument)
+		type rec map[int]constant.Value
+		zero := func(i int) constant.Value {
+			if b, ok := st.Field(i).Type().Underlying().(*types.Basic); ok {
+				switch {
+				case b.Info()&types.IsBoolean != 0:
+					return constant.MakeBool(false)
+				case b.Info()&types.IsString != 0:
+					return constant.MakeString("")
+				case b.Info()&types.IsInteger != 0:
+					return constant.MakeInt64(0)
+				}
+			}
+			return constant.MakeUnknown()
+		}
+		ctors := map[string]rec{}
+		for _, fn := range []string{"(*batch).Put", "(*batch).Delete", "(*batch).DeleteRange"} {
+			f := c.Fn(mp, fn)
+			if f == nil {
+				continue
+			}
+			c.Funcs[f] = true
+			r := rec{}
+			for i := 0; i < st.NumFields(); i++ {
+				r[i] = zero(i)
+			}
+			eachInstr(f, func(in ssa.Instruction) {
+				s, ok := in.(*ssa.Store)
+				if !ok {
+					return
+				}
+				fa, ok := s.Addr.(*ssa.FieldAddr)
+				if !ok || !isKV(fa.X.Type()) {
+					return
+				}
+				if k, isConst := s.Val.(*ssa.Const); isConst && k.Value != nil {
+					r[fa.Field] = k.Value
+				} else {
+					r[fa.Field] = nil
+				}
+			})
+			ctors[fn] = r
+		}
+		c.Expect(3, len(ctors), "batch record constructors")
+		// field of the record a condition value reads (through one load), or -1
+		fieldOf := func(v ssa.Value) int {
+			switch x := v.(type) {
+			case *ssa.Field:
+				if isKV(x.X.Type()) {
+					return x.Field
+				}
+			case *ssa.UnOp:
+				if fa, ok := x.X.(*ssa.FieldAddr); ok && isKV(fa.X.Type()) {
+					return fa.Field
+				}
+			}
+			return -1
+		}
+		nTests := 0
+		for _, fn := range []string{"(*batch).Write", "(*batch).Replay"} {
+			f := c.Fn(mp, fn)
+			if f == nil {
+				continue
+			}
+			c.Funcs[f] = true
+			for cn, r := range ctors {
+				seen := map[*ssa.BasicBlock]bool{}
+				bad := ""
+				var badPos token.Pos
+				var dfs func(b *ssa.BasicBlock)
+				dfs = func(b *ssa.BasicBlock) {
+					if seen[b] || bad != "" {
+						return
+					}
+					seen[b] = true
+					iff, ok := b.Instrs[len(b.Instrs)-1].(*ssa.If)
+					if !ok {
+						for _, s := range b.Succs {
+							dfs(s)
+						}
+						return
+					}
+					// dispatch test: a record field used as a bool, or compared with a non-nil constant
+					fld, want, op := -1, constant.Value(nil), token.EQL
+					if i := fieldOf(iff.Cond); i >= 0 {
+						fld, want = i, constant.MakeBool(true)
+					} else if bo, ok := iff.Cond.(*ssa.BinOp); ok && (bo.Op == token.EQL || bo.Op == token.NEQ) {
+						if k, ok := bo.Y.(*ssa.Const); ok && k.Value != nil && fieldOf(bo.X) >= 0 {
+							fld, want, op = fieldOf(bo.X), k.Value, bo.Op
+						} else if k, ok := bo.X.(*ssa.Const); ok && k.Value != nil && fieldOf(bo.Y) >= 0 {
+							fld, want, op = fieldOf(bo.Y), k.Value, bo.Op
+						}
+					}
+					if fld < 0 {
+						for _, s := range b.Succs {
+							dfs(s)
+						}
+						return
+					}
+					nTests++
+					have := r[fld]
+					if have == nil || have.Kind() == constant.Unknown {
+						bad = st.Field(fld).Name()
+						badPos = iff.Cond.Pos()
+						if badPos == token.NoPos {
+							badPos = b.Instrs[0].Pos()
+						}
+						return
+					}
+					eq := constant.Compare(have, token.EQL, want)
+					if op == token.NEQ {
+						eq = !eq
+					}
+					if eq {
+						dfs(b.Succs[0])
+					} else {
+						dfs(b.Succs[1])
+					}
+				}
+				dfs(f.Blocks[0])
+				name := "dispatch/" + fnName(f) + "/" + cn
+				if bad == "" {
+					c.OK(name, f.Pos(), "the record built by "+cn+" is dispatched by constant fields only")
+				} else {
+					c.Bad(name, badPos, fnName(f)+" decides how to apply the record built by "+cn+" by testing field `"+bad+"`, which "+cn+" fills from its argument: a caller-chosen value (the empty key) makes a single-key deletion be applied as a range deletion over the whole store, unlike the other backends")
+				}
+			}
+		}
+		c.Expect(6, nTests, "dispatch tests followed in Write/Replay")
+	})
+}
+
+func init() {
+	extendProp("C23", "An error returned by the target writer while a batch is replayed reaches Replay's caller on every backend: each call of the writer's Put/Delete/DeleteRange inside the replay machinery has its error tested and returned, or parks it in a field that Replay returns.", nil, func(c *Ctx) {
+		c.Rule("ERRUSE/C23.replay")
+		writerOps := "(ethdb.KeyValueWriter).Put|(ethdb.KeyValueWriter).Delete|(ethdb.KeyValueRangeDeleter).DeleteRange"
+		total := 0
+		for _, pk := range []string{"ethdb/memorydb", "ethdb/pebble", "ethdb/leveldb"} {
+			rp := c.TryFn(pk, "(*batch).Replay")
+			if rp == nil {
+				c.Undecided("replay/"+pk, token.NoPos, "no (*batch).Replay in "+pk)
+				continue
+			}
+			c.Funcs[rp] = true
+			for _, f := range c.AllFuncs(pk) {
+				rn := recvNamed(f)
+				if f != rp && !hasSuffix(rn, pk+".replayer") {
+					continue
+				}
+				for _, s := range c.Calls(f, writerOps) {
+					total++
+					call := s.Instr.(*ssa.Call)
+					name := "writer-error/" + fnName(f) + "/" + calleeName(&call.Call)
+					if ErrCheckedSite(s) {
+						c.OK(name, s.Pos(), "the writer's error is tested and returned")
+						continue
+					}
+					// parked in a field?
+					var parked *ssa.FieldAddr
+					for _, r := range *call.Referrers() {
+						if st, ok := r.(*ssa.Store); ok && st.Val == ssa.Value(call) {
+							if fa, ok := st.Addr.(*ssa.FieldAddr); ok {
+								parked = fa
+							}
+						}
+					}
+					if parked == nil {
+						c.Bad(name, s.Pos(), "the error of "+calleeName(&call.Call)+" is neither tested nor kept: a failing target writer goes unnoticed by Replay's caller")
+						continue
+					}
+					fld := fieldAddrName(parked)
+					returned := false
+					for _, r := range c.Returns(rp) {
+						v := retVal(r.Instr.(*ssa.Return), 0)
+						if Mentions(func(x ssa.Value) bool {
+							u, ok := x.(*ssa.UnOp)
+							if !ok {
+								return false
+							}
+							fa, ok := u.X.(*ssa.FieldAddr)
+							return ok && fieldAddrName(fa) == fld
+						})(v) {
+							returned = true
+						}
+					}
+					c.Check(returned, name, s.Pos(), "the writer's error is parked in "+fld+", which Replay returns",
+						"the writer's error is parked in "+fld+" but "+fnName(rp)+" never returns that field: Replay reports success although the target writer failed (the other backends return the error)")
+				}
+			}
+		}
+		c.Expect(9, total, "writer operations inside the replay machinery of the three backends")
+	})
+}
+
+func init() {
+	extendProp("C23", "Recording an operation in a batch does not consult the database: no backend's batch Put/Delete/DeleteRange calls a method on the batch's database handle, so what a batch does is fixed by its recorded operations and their order, not by the store's content at record time.", nil, func(c *Ctx) {
+		c.Rule("EFFECT/C23.deferred")
+		n := 0
+		for _, pk := range []string{"ethdb/memorydb", "ethdb/pebble", "ethdb/leveldb"} {
+			for _, m := range []string{"Put", "Delete", "DeleteRange"} {
+				f := c.TryFn(pk, "(*batch)."+m)
+				if f == nil {
+					continue
+				}
+				n++
+				c.Funcs[f] = true
+				var hits []ssa.Instruction
+				eachInstr(f, func(in ssa.Instruction) {
+					call, ok := in.(ssa.CallInstruction)
+					if !ok {
+						return
+					}
+					cc := call.Common()
+					var recv ssa.Value
+					if cc.IsInvoke() {
+						recv = cc.Value
+					} else if len(cc.Args) > 0 && cc.StaticCallee() != nil && cc.StaticCallee().Signature.Recv() != nil {
+						recv = cc.Args[0]
+					}
+					if recv == nil {
+						return
+					}
+					if u, ok := recv.(*ssa.UnOp); ok {
+						if fa, ok := u.X.(*ssa.FieldAddr); ok && fieldAddrName(fa) == pk+".batch.db" {
+							hits = append(hits, in)
+						}
+					}
+				})
+				name := "record-only/" + fnName(f)
+				if len(hits) == 0 {
+					c.OK(name, f.Pos(), "only records the operation")
+				}
+				for _, h := range hits {
+					c.Bad(name, h.Pos(), fnName(f)+" calls "+calleeName(h.(ssa.CallInstruction).Common())+" on the database while recording: the batch's effect depends on the store's content at record time (a key put earlier in the same batch, or written to the store before Write, is not covered), unlike the backends that apply the recorded operation at Write")
+				}
+			}
+		}
+		c.Expect(9, n, "batch mutators of the three backends")
 	})
 }
